@@ -218,7 +218,9 @@ PROPS = {
         pkg="c05", level="exploration", journal_cases=True,
         tests=[T("TestC05", Q(30, timeout=400, shards=4, shrinktime="30s"), Q(100, timeout=1500, shards=16, shrinktime="90s")),
                T("TestC05Tables", Q(40, timeout=300, shrinktime="20s"), Q(200, timeout=900, shards=2, shrinktime="60s")),
-               T("TestC05Live", Q(12, timeout=400, shards=4, shrinktime="30s"), Q(80, timeout=1500, shards=8, shrinktime="90s"))],
+               T("TestC05Live", Q(12, timeout=400, shards=4, shrinktime="30s"), Q(80, timeout=1500, shards=8, shrinktime="90s")),
+               T("TestC05Handover", Q(60, timeout=400, shrinktime="30s"), Q(400, timeout=1500, shards=6, shrinktime="90s")),
+               T("TestC05Cluster", Q(2, timeout=500, shrinktime="5s"), Q(6, timeout=2400, shards=6, shrinktime="60s"))],
         rule="TestC05: a real leader engine and a real follower engine (in-process, single-node clusters) wired like cmd/leader.go / cmd/follower.go with three Log servers (message-size limits 256 B, 4 KiB, 4 MiB; odd shards run "
              "the leader with the log cache on), real Snapshot/Metadata/KV services over loopback gRPC; the replication worker is built by the real factory and stepped by the harness (verif hook). Histories of 3-40 actions: leader put "
              "(values up to 3 KB) / delete / range delete / non-idempotent txn (if ctr==n then ctr:=n+1 else ctr:=0 + range delete), poll(one worker iteration against a drawn Log server, incl. snapshot recovery when the leader answers "
@@ -226,8 +228,12 @@ PROPS = {
              "The same comparison runs after EVERY Update call of the follower's table state machine (applied-index listener: apply path paused, stale reads). Oracle after EVERY action: read follower leader index, full content, leader index again; if unchanged, content == "
              "leader model at that index; index never decreases; with the leader quiet at most 6 polls reach the leader's latest index and content. Non-trivial iff (a snapshot-based catch-up with non-idempotent txns both before and after it) "
              "or a worker/engine restart with un-replicated entries pending. TestC05Tables: create/delete of tables on the leader, reconcileTables, follower restarts; follower table set == leader table set after each reconciliation "
-             "(non-trivial iff >=1 create and >=1 delete took effect). Distinct = sha256 of case JSON.",
-        assumptions=["single-replica follower cluster (lease hand-over to a lagging replica is not covered)", "proposal timeouts are not injected", "after an engine restart one reconcile round is run explicitly (production: 30 s timer)"],
+             "(non-trivial iff >=1 create and >=1 delete took effect), plus worker reconciliation rounds (every follower table has a worker, also after a recovery that died after recording its recovery shard). "
+             "TestC05Handover: a follower CLUSTER of three nodes (real raft between three engines); the harness decides whose stepped worker polls next (workers never overlap: a lease handed from node to node), one node can be held back (its apply calls take 5-50 ms longer); "
+             "after every action, on every node, the node's copy == leader model at the index that copy records, index never backwards; non-trivial iff the polling node changed, >=2 txns, >=2 polls. "
+             "TestC05Cluster: the same cluster with three STARTED replication managers (real lease competition, lease handed over by restarting the holder, long lease intervals so that lease timing is not what is tested, control ticker), samplers on every node, judged post hoc. "
+             "TestC05Live: a started manager on a single follower node (see DESIGN 3b). Distinct = sha256 of case JSON.",
+        assumptions=["proposal timeouts are not injected", "after an engine restart one reconcile round is run explicitly (production: 30 s timer)"],
         technique="stateful property-based testing on two real engines with a harness-owned replication schedule, model of the leader's state per revision",
         level_text="Randomised exploration of leader histories x polling/compaction/restart schedules with an exact per-index content oracle.",
         level_note="Trusted: model; the worker loop body is re-stated in the verif hook (replication/export_verif.go Poll).",
